@@ -38,6 +38,16 @@ def main(argv, chk):
             t0 = time.time()
             prop = sd.split("_")[0]
             d = os.path.join(verif, "seeded", sd)
+            # a seed whose own property's check is silent by design names the check that catches it (meta.json "selftest")
+            try:
+                st = json.load(open(os.path.join(d, "meta.json"))).get("selftest", {})
+            except Exception:
+                st = {}
+            if st.get("expect") == "neutralised":
+                results.append(dict(seed=sd, property=prop, result="SKIPPED: " + st.get("why", "neutralised")))
+                print("SELFTEST %s: SKIPPED (%s)" % (sd, st.get("why", "")), flush=True)
+                continue
+            prop = st.get("check", prop)
             spec = chk.PROPS[prop]
             target = os.path.join(scratch, "target-async" if spec["bin"] == "fbrv-async" else "target")
             row = dict(seed=sd, property=prop)
